@@ -960,6 +960,8 @@ def run(ctx: Ctx) -> None:
 
 # ---------------------------------------------------------------------------
 WITNESSES = [
+    {"name": "seeded-C04-10", "file": "algos/pareto/pareto_front.py", "old": "        feasibility = zeros(n_iter)\n\n        for iteration, item in enumerate(problem.database.items()):\n            x_vect, out_val = item\n            dv_history[iteration] = x_vect.unwrap()\n            if problem.objective.name in out_val:\n                obj_history[iteration] = array(out_val[problem.objective.name])\n                feasibility[iteration] = problem.constraints.is_point_feasible(out_val)\n", "new": "        feasibility = zeros(n_iter)\n        # Report the objectives with their original sign when requested.\n        if problem.minimize_objective or problem.use_standardized_objective:\n            sign = 1.0\n        else:\n            sign = -1.0\n\n        for iteration, item in enumerate(problem.database.items()):\n            x_vect, out_val = item\n            dv_history[iteration] = x_vect.unwrap()\n            if problem.objective.name in out_val:\n                obj_history[iteration] = sign * array(out_val[problem.objective.name])\n                feasibility[iteration] = problem.constraints.is_point_feasible(out_val)\n", "expect": "4.7", "note": "ParetoFront restores the original objective sign before the non-dominated filter"},
+    {"name": "seeded-C04-9", "file": "algos/optimization_history.py", "old": "        c_opt = {}\n        c_opt_grad = {}\n        obj_name = self.objective_name\n        for i, output_values in enumerate(feas_f):\n            obj_value = output_values.get(obj_name)\n            if obj_value is None:\n                continue\n\n            if not isinstance(obj_value, Real) and obj_value.size > 1:\n                obj_value = norm(obj_value)\n\n            if obj_value < f_opt:\n                f_opt = obj_value\n                x_opt = feas_x[i]\n                for constraint in constraints:\n                    c_name = constraint.name\n                    c_opt[c_name] = output_values.get(c_name)\n                    c_key = Database.get_gradient_name(c_name)\n                    c_opt_grad[constraint.name] = output_values.get(c_key)\n\n", "new": "        c_opt = {}\n        c_opt_grad = dict.fromkeys(constraints.get_names())\n        obj_name = self.objective_name\n        for i, output_values in enumerate(feas_f):\n            obj_value = output_values.get(obj_name)\n            if obj_value is None:\n                continue\n\n            if not isinstance(obj_value, Real) and obj_value.size > 1:\n                obj_value = norm(obj_value)\n\n            if obj_value < f_opt:\n                f_opt = obj_value\n                x_opt = feas_x[i]\n                for constraint in constraints:\n                    c_name = constraint.name\n                    c_opt[c_name] = output_values.get(c_name)\n                    c_key = Database.get_gradient_name(c_name)\n                    if c_key in output_values:\n                        c_opt_grad[c_name] = output_values[c_key]\n\n", "expect": "4.1", "note": "optimum keeps a stale constraint gradient when the best feasible point has none "},
     {"name": "x_opt-outside-selection", "file": OH, "old": "            if obj_value < f_opt:\n                f_opt = obj_value\n                x_opt = feas_x[i]\n", "new": "            x_opt = feas_x[i]\n            if obj_value < f_opt:\n                f_opt = obj_value\n", "expect": "4.1"},
     {"name": "selection-greater", "file": OH, "old": "            if obj_value < f_opt:", "new": "            if obj_value > f_opt:", "expect": "4.2"},
     {"name": "incumbent-zero", "file": OH, "old": "        f_opt, x_opt = inf, array([])", "new": "        f_opt, x_opt = 0.0, array([])", "expect": "4.2"},
